@@ -411,6 +411,13 @@ def loader_part(rep, tmp):
         open(p, "w").write(src)
         return p
     paths["valid"] = wr(d1, "vmodel_ok.py", good)
+    # a model that keeps part of its code in a module next to it
+    d3 = os.path.join(tmp, "d3")
+    os.makedirs(d3)
+    wr(d3, "vk_helper_mod_c18.py", "HELPER_FACTOR = 1.0\n")
+    paths["valid-two-files"] = wr(
+        d3, "vmodel_two.py",
+        "from vk_helper_mod_c18 import HELPER_FACTOR\n" + good)
     paths["syntax"] = wr(d1, "vmodel_syntax.py", "def broken(:\n pass\n")
     paths["inner-import"] = wr(d1, "vmodel_inner.py",
                                "import no_such_module_xyz\n" + good)
@@ -424,8 +431,8 @@ def loader_part(rep, tmp):
                                           'vk_file"', ""))
     n = 0
     for where in ("absent", "first", "last", "middle"):
-        for kind in ("valid", "syntax", "inner-import", "raises", "missing",
-                     "incomplete"):
+        for kind in ("valid", "valid-two-files", "syntax", "inner-import",
+                     "raises", "missing", "incomplete"):
             for register in (False, True):
                 with Registry():
                     p = paths[kind]
@@ -444,7 +451,7 @@ def loader_part(rep, tmp):
                     n += 1
                     try:
                         md = logic.load_model_from_file(p, register=register)
-                        if kind != "valid":
+                        if not kind.startswith("valid"):
                             rep.violate(V(PROP, "import-wrong-error",
                                           site="load_model_from_file",
                                           witness=wit, detail="no error for "
@@ -456,7 +463,7 @@ def loader_part(rep, tmp):
                                           witness=wit, detail="wrong model",
                                           case=case, kind="loader"))
                     except ModelImportError:
-                        if kind in ("valid", "incomplete"):
+                        if kind.startswith("valid") or kind == "incomplete":
                             rep.violate(V(PROP, "import-wrong-error",
                                           site="load_model_from_file",
                                           witness=wit, detail="import error "
@@ -484,7 +491,7 @@ def loader_part(rep, tmp):
                             detail="sys.path differs after the call: "
                             f"{_pathdiff(path0, sys.path)}", case=case,
                             kind="loader"))
-                    if kind != "valid" or not register:
+                    if not kind.startswith("valid") or not register:
                         if dict(logic.models_available) != before:
                             rep.violate(V(PROP, "registry-changed",
                                           site="load_model_from_file",
